@@ -4,6 +4,7 @@ import RedisGoModel.Driver.Parser
 import RedisGoModel.Driver.Exec
 import RedisGoModel.Driver.Serve
 import RedisGoModel.Driver.Apply
+import RedisGoModel.Driver.Codec
 /-! Correspondence driver: reads one observed operation per line on stdin, recomputes it with the model, prints
     `MISMATCH <lineno> <detail>` for every disagreement and a final `SUMMARY` line. -/
 open Driver
@@ -30,7 +31,7 @@ partial def loop (h : IO.FS.Stream) (st : St) : IO St := do
   let st := { st with sv := sv' }
   let (ap', apv) := if exv.isNone && svv.isNone then applyLine st.ap fs else (st.ap, none)
   let st := { st with ap := ap' }
-  match (((exv.orElse fun _ => svv).orElse fun _ => apv).orElse fun _ => globLine fs).orElse (fun _ => parserLine fs) with
+  match ((((exv.orElse fun _ => svv).orElse fun _ => apv).orElse fun _ => codecLine fs).orElse fun _ => globLine fs).orElse (fun _ => parserLine fs) with
   | some (.ok b) => loop h { st with n := n, pos := st.pos + (if b then 1 else 0) }
   | some (.error e) =>
     IO.println s!"MISMATCH {n} {e} :: {line}"
